@@ -158,7 +158,8 @@ def q_used(run, c):
     expv = exp * k / mult
     tol = round_tol(d) + tol_amt * k / mult
     err = abs(F(float(out[1])) - expv)
-    run.bench.note_ratio('substance_used', err, tol)
+    if not kid:   # calibration numbers describe judged answers only, not those a known finding excuses
+        run.bench.note_ratio('substance_used', err, tol)
     if err > tol:
         run.V('C09', 'amount', key, f"{desc} = {out[1]!r}, ledger says {float(expv):.9g} (of which discarded {float(trash * k / mult):.9g})", kid)
     elif exp > tol_amt:
